@@ -30,7 +30,14 @@ func verifHarness_C14_serial(fails int, second int) {
 	e := &endpointSerial{node: n, conf: EndpointSerial{Device: "x", Baud: 57600}}
 	e.ctx, e.ctxCancel = verifCtx()
 	e.first = second == 1
-	label, conn, err := e.provide()
+	var label string
+	var conn io.ReadWriteCloser
+	var err error
+	blocked := verifRunUntilBlocked(func() { label, conn, err = e.provide() })
+	verifAssert(!blocked, "C14/T2/keeps-retrying-after-any-number-of-failures")
+	if blocked {
+		return
+	}
 	verifAssert(err == nil && conn == io.ReadWriteCloser(rwc), "C14/T2/returns-the-connection-once-an-attempt-succeeds")
 	verifAssert(label == "serial", "C14/T2/label")
 	verifAssert(attempts == fails+1, "C14/T2/one-attempt-per-failure-plus-one")
@@ -73,7 +80,13 @@ func verifHarness_C14_client(udp int, fails int, second int) {
 	e := &endpointClient{node: n, conf: conf}
 	e.ctx, e.ctxCancel = verifCtx()
 	e.first = second == 1
-	_, conn, err := e.provide()
+	var conn io.ReadWriteCloser
+	var err error
+	blocked := verifRunUntilBlocked(func() { _, conn, err = e.provide() })
+	verifAssert(!blocked, "C14/T2/keeps-retrying-after-any-number-of-failures")
+	if blocked {
+		return
+	}
 	verifAssert(err == nil && conn != nil, "C14/T2/returns-the-connection-once-an-attempt-succeeds")
 	verifAssert(attempts == fails+1, "C14/T2/one-attempt-per-failure-plus-one")
 	verifAssert(verifTimerCount() == fails+second, "C14/T2/one-reconnect-delay-before-each-later-attempt")
@@ -108,6 +121,48 @@ func verifHarness_C14_terminated() {
 	_, conn, err := e.provide()
 	verifAssert(err == errTerminated && conn == nil, "C14/T2/closed-endpoint-reports-terminated")
 	verifReach("C14/T2t")
+}
+
+// T2 (termination during the reconnect back-off, one schedule): the device / peer is gone, every attempt fails and the
+// reconnect timer has not elapsed; closing the endpoint makes provide() return errTerminated.
+// kind 0: serial, 1: TCP client, 2: UDP client; second = 1: not the endpoint's first provide().
+func verifHarness_C14_backoff_terminated(kind int, second int) {
+	old := serialOpenFunc
+	defer func() { serialOpenFunc = old }()
+	serialOpenFunc = func(device string, baud int) (io.ReadWriteCloser, error) { return nil, verifErrOpen }
+	verifSetDialer(func() (net.Conn, error) { return nil, verifErrOpen })
+	n := verifBareNode(V2, 1, 1)
+	n.ReadTimeout = 10 * time.Second
+	var provide func() (string, io.ReadWriteCloser, error)
+	var closeFn func()
+	if kind == 0 {
+		e := &endpointSerial{node: n, conf: EndpointSerial{Device: "x", Baud: 57600}}
+		e.ctx, e.ctxCancel = verifCtx()
+		e.first = second == 1
+		provide, closeFn = e.provide, e.close
+	} else {
+		var conf endpointClientConf = EndpointTCPClient{"1.2.3.4:5600"}
+		if kind == 2 {
+			conf = EndpointUDPClient{"1.2.3.4:5600"}
+		}
+		e := &endpointClient{node: n, conf: conf}
+		e.ctx, e.ctxCancel = verifCtx()
+		e.first = second == 1
+		provide, closeFn = e.provide, e.close
+	}
+	verifTimersPending(true)
+	done := false
+	var conn io.ReadWriteCloser
+	var perr error
+	blocked := verifRunGoroutines(func() { _, conn, perr = provide(); done = true })
+	verifAssert(blocked && !done, "C14/T2b/waits-for-the-reconnect-delay")
+	closeFn()
+	blocked = verifRunGoroutines(nil)
+	verifAssert(!blocked && done, "C14/T2b/close-ends-the-back-off")
+	if done {
+		verifAssert(perr == errTerminated && conn == nil, "C14/T2b/closed-endpoint-reports-terminated")
+	}
+	verifReach("C14/T2b")
 }
 
 // scripted listener for the server endpoint
